@@ -10,6 +10,7 @@ import (
 	"bytes"
 	"errors"
 	"io"
+	"log/slog"
 	"os"
 
 	"github.com/prometheus/prometheus/util/compression"
@@ -149,7 +150,7 @@ func vpH_C13_live_reader_partial_flush() {
 	}
 	vpObserve("tail", tail)
 	src := &vpXGrowReader{data: file.data, avail: cut}
-	lr := NewLiveReader(nil, NewLiveReaderMetrics(nil), src)
+	lr := NewLiveReader(slog.New(slog.DiscardHandler), NewLiveReaderMetrics(nil), src)
 	var got [][]byte
 	for phase := 0; phase < 2; phase++ {
 		for lr.Next() {
